@@ -345,7 +345,8 @@ def _c09_nontrivial(line, verdict):
 PROPS["C09"] = {
     "modules": ["IbexProofs.Props.C09", "IbexProofs.Props.C09exist", "IbexProofs.Props.C09exact", "IbexProofs.Props.C09rules"],
     "harnesses": ["h_newton"],
-    "workloads": lambda tier, seed: [{"harness": "h_newton", "tag": "newton", "args": ["c09", seed, 350 if tier == "quick" else 6000]}],
+    "workloads": lambda tier, seed: [{"harness": "h_newton", "tag": "newton", "args": ["c09", seed, 350 if tier == "quick" else 6000]},
+                                     {"harness": "h_newton", "tag": "certify", "args": ["certify", seed, 250 if tier == "quick" else 4000]}],
     "nontrivial": _c09_nontrivial,
     "rule": "systems with exactly known zeros (planted solution of random square / under-constrained systems, 2-3 regular zeros all known, singular zeros) "
             "and systems without any zero; boxes around / away from the zeros (tiny, small, medium, large with several zeros, zero on the boundary, the whole domain); "
@@ -353,7 +354,10 @@ PROPS["C09"] = {
             "all zeros kept certified when the box has a regular interval Jacobian, emptied boxes contain no known zero; inflating_newton (from the box / its midpoint, "
             "with VarSet): success => SolClaim certified by the Krawczyk + regular-Jacobian certificates or refuted by known zeros / by interval exclusion; "
             "PdcHansenFeasibility (inflating or not): YES => the returned box contains a zero (known zero, Krawczyk certificate on a sub-box) and is refuted when "
-            "interval evaluation on a subdivision excludes a zero; non-trivial = a decided claim",
+            "interval evaluation on a subdivision excludes a zero; LoupFinderCertify (rigor mode: systems whose zeros are all known exactly, inequalities that cut some of them off, "
+            "constraints declared as scalars or grouped into vector-valued constraints in every order, inner finder failing / returning a nearby point / the zero): a returned box "
+            "is refuted when a constraint is violated at every point of it, when the equalities have no zero in it or when the goal exceeds the returned value, and certified by a known "
+            "feasible point or by the existence certificate with the inequalities proved on the box; non-trivial = a decided claim",
     "assumptions": ["claims that are neither certified nor refuted are tagged `uncertified` (non-rational operators; thick constants; wide parameter ranges) and counted in "
                     "the verdict histogram; existence boxes a few ulps wide are decided by the certificates evaluated with EXACT rational interval arithmetic "
                     "(existCertVarsX, exists_zero_of_certX)",
